@@ -366,6 +366,11 @@ fn gen_big_op(rng: &mut StdRng, u: &Universe, stored: &[(u64, u64)], stored_hash
             let start = *[1, (len / 3).max(1), rng.gen_range(1..=len.saturating_sub(n).max(1))].choose(rng).unwrap();
             cands.push((start, n.min(len + 1 - start)));
         }
+        if cands.is_empty() {
+            // the whole chain is stored: a big insert can only overlap (and must be rejected as a whole)
+            let start = rng.gen_range(1..=len.saturating_sub(n).max(1));
+            cands.push((start, n.min(len + 1 - start)));
+        }
         // prefer the placements that keep the operation big
         let big: Vec<(u64, u64)> = cands.iter().copied().filter(|c| c.1 > 256).collect();
         let pick = if !big.is_empty() && rng.gen_bool(0.85) { *big.choose(rng).unwrap() } else { *cands.choose(rng).unwrap() };
@@ -433,7 +438,7 @@ pub fn record(args: &Args) {
     let mut tw = TraceWriter::create(&out);
     let mut sum = Summary::new("storecrash-record");
     let rt = tokio::runtime::Builder::new_current_thread().enable_all().build().unwrap();
-    h_common::QUIET_ALL.store(true, std::sync::atomic::Ordering::Relaxed);
+    h_common::QUIET_ALL.store(std::env::var("H_REDB_DEBUG").is_err(), std::sync::atomic::Ordering::Relaxed);
     rt.block_on(async {
         let mut ids: Vec<u64> = (first..first + runs).collect();
         ids.extend(1000 + big_first..1000 + big_first + big_runs);
